@@ -14,6 +14,7 @@ import (
 	"time"
 
 	"github.com/tendermint/tendermint/libs/service"
+	"github.com/tendermint/tendermint/libs/verifhook"
 )
 
 const (
@@ -295,6 +296,7 @@ func (g *Group) checkTotalSizeLimit() {
 			return
 		}
 		totalSize -= fInfo.Size()
+		verifhook.Point("group.removed", pathToRemove)
 	}
 }
 
@@ -319,6 +321,7 @@ func (g *Group) RotateFile() {
 	}
 
 	indexPath := filePathForIndex(headPath, g.maxIndex, g.maxIndex+1)
+	verifhook.Point("group.rotate", headPath, indexPath)
 	if err := os.Rename(headPath, indexPath); err != nil {
 		panic(err)
 	}
